@@ -1,0 +1,11 @@
+//go:build verif
+
+package search
+
+import "github.com/sourcegraph/zoekt"
+
+// VerifTypeRepoSearcher wraps s in the unexported typeRepoSearcher (the evaluation of type:repo sub-queries
+// before the query reaches the shards). Verification hook; not part of the normal build.
+func VerifTypeRepoSearcher(s zoekt.Streamer) zoekt.Streamer {
+	return &typeRepoSearcher{Streamer: s}
+}
